@@ -113,6 +113,7 @@ type nodeWorld struct {
 	hbSeen   int
 
 	afterItem      []func(it Item)
+	skipItem       func(it Item) bool
 	afterHeartbeat []func(pre, post *snapshot)
 	beforeItem     []func(it Item)
 	atEnd          []func()
@@ -1014,6 +1015,9 @@ func (w *nodeWorld) run() {
 		s.logf("ITEM %s %v %v", it.Op, it.A, it.S)
 		for _, f := range w.beforeItem {
 			f(it)
+		}
+		if w.skipItem != nil && w.skipItem(it) {
+			continue
 		}
 		w.exec(it)
 		for _, f := range w.afterItem {
